@@ -142,6 +142,19 @@ class C12(Prop):
                                                  model_parallel_group=('group', group_of(r, mp_lists)))
                 except Exception as e:  # noqa: BLE001
                     return 'construction', f'rank {r}: GPTNeoXAssignment raised {type(e).__name__}: {e}'
+            # decoys: further assignment objects over the same layer names but other costs, created afterwards and kept alive while
+            # the ones under test are queried (objects must not share state)
+            decoys = []
+            dist.new_group = lambda ranks=None, *a, **k: ('group', tuple(sorted(ranks or range(W))))
+            for r in sorted({0, W - 1}):
+                stage = topo.get_coord(r).pipe
+                w0 = work_fn(stage, d * m)
+                w2 = {n: {f: (c + 1) * (len(w0) - i) for f, c in fs.items()} for i, (n, fs) in enumerate(w0.items())}
+                try:
+                    decoys.append(GPTNeoXAssignment(w2, local_rank=r, topology=topo, data_parallel_group=('group', group_of(r, dp_lists)),
+                                                    model_parallel_group=('group', group_of(r, mp_lists))))
+                except Exception:  # noqa: BLE001
+                    pass
         finally:
             dist.new_group = saved
         try:
